@@ -4,6 +4,7 @@
 mod appgen;
 mod common;
 mod costs;
+mod determinism;
 mod gains;
 mod ledger;
 mod rng;
@@ -80,6 +81,24 @@ fn main() {
                 costs::run_case(&format!("K{}-{}", seed, i), &c, &mut s);
                 w.write_all(s.as_bytes()).unwrap();
             }
+        }
+        "determinism" => {
+            let runs = arg_val(&args, "--runs", 10) as usize;
+            let mut r = rng::Rng::new(seed);
+            for i in 0..count {
+                let mut cr = r.fork();
+                let c = determinism::gen_case(&mut cr);
+                let mut s = String::new();
+                determinism::run_case(&format!("D{}-{}", seed, i), &c, runs, &mut s);
+                w.write_all(s.as_bytes()).unwrap();
+            }
+            determinism::cleanup();
+        }
+        "determinism-replay" => {
+            let runs = arg_val(&args, "--runs", 30) as usize;
+            let s = common::replay_stdin(determinism::parse_case, |id, c, out| determinism::run_case(id, c, runs, out));
+            determinism::cleanup();
+            w.write_all(s.as_bytes()).unwrap();
         }
         "gains" => {
             let mut r = rng::Rng::new(seed);
